@@ -326,7 +326,8 @@ func (a *Announce) AnnounceName(name string) bool {
 func (a *Announce) GetStatus(meta types.NamespacedName) []IPAdvertisement {
 	a.RLock()
 	defer a.RUnlock()
-	return a.ips[meta.String()]
+	// Return a copy: SetBalancer overrides the elements of the slice in place.
+	return append([]IPAdvertisement(nil), a.ips[meta.String()]...)
 }
 
 // GetInterfaces returns current interfaces list.
